@@ -63,7 +63,8 @@ def gen_world(rng, idx):
 
 
 FAULTS = [('setUp', 'raise:ValueError'), ('tearDown', 'raise:KeyError'),
-          ('tearDown', 'nie'), ('setUp', 'raise:NeedsArgs')]
+          ('tearDown', 'nie'), ('setUp', 'raise:NeedsArgs'),
+          ('setUp', 'raise:NotImplementedError')]
 
 
 def cases(tier, seed):
